@@ -95,7 +95,49 @@ class C02(Check):
         return [Space("boolean-values", {"generator": "scopecases.bool_values: and / or / not used for their value over operands that are not truth "
                                                        "values, constants (written out, through a called lambda's argument, through a constant "
                                                        "projection) in every position", "binder_names": "every admissible assignment from pool ['e','j']"},
-                      scopecases.bool_values, runner="run_chain")]
+                      scopecases.bool_values, runner="run_chain"),
+                Space("one-simplifier-object", {"menu": len(self.REUSE_MENU), "histories": "every sequence of 2 and 3 menu entries given to ONE "
+                                                "simplify_chained_calls object (refused queries included)"},
+                      (lambda: [p for n in (2, 3) for p in __import__("itertools").product(range(len(self.REUSE_MENU)), repeat=n)]),
+                      runner="run_reuse")]
+
+    REUSE_MENU = [
+        "Select(Select(ds, lambda e: (e.a, e.b)), lambda t: t[2])",  # refused with the dedicated index error
+        "Select(Select(ds, lambda e: e.jets), lambda j: Count(j))",
+        "Select(ds, lambda arg_1: Select(arg_1.jets, lambda arg_2: Count(Where(Select(arg_1.jets, lambda arg_0: arg_0.pt + arg_1.a), lambda e: e > arg_2.pt))))",
+        "Select(Select(ds, lambda arg_0: arg_0.jets), lambda arg_1: Select(arg_1, lambda arg_0: arg_0.pt + 1))",
+        "Select(ds, lambda arg_3: (lambda arg_4: (Count(arg_4), Where(arg_4, lambda arg_5: arg_5 > 1)))(Select(arg_3.jets, lambda arg_4: arg_4.pt + 1)))",
+        "Select(Where(Select(ds, lambda arg_7: (arg_7.a, arg_7.jets)), lambda arg_7: arg_7[0] > 1), lambda arg_8: Count(arg_8[1]))",
+        "(lambda arg_0, arg_1: Select(arg_1, lambda arg_2: arg_2.a + arg_0))(1, ds)",
+        "Select(ds, lambda e: (lambda t: t[5])((e.a,)))",  # refused, inside a called lambda
+    ]
+
+    def run_reuse(self, payload):
+        """several queries given, one after the other, to ONE simplify_chained_calls object (as a back end that keeps its
+        transformer does), without resetting the library's fresh-name counter in between; refusals are part of the history"""
+        from func_adl.ast.function_simplifier import FuncADLIndexError, simplify_chained_calls
+
+        res = {"n": 0, "nt": [repr(payload)], "oc": [], "tags": {}, "viol": []}
+        t = simplify_chained_calls()
+        for step, k in enumerate(payload):
+            src = self.REUSE_MENU[k]
+            q = qsem.parse_expr(src)
+            try:
+                s_ = t.visit(copy.deepcopy(q))
+            except FuncADLIndexError:
+                res["oc"].append("reuse:refused")
+                continue
+            except Exception as e:
+                res["viol"].append({"kind": f"reused-object:raised:{type(e).__name__}", "canon": repr(payload), "msg": f"step {step}: {e}"[:200]})
+                return res
+            kind, msg, n, oc = qsem.compare(q, s_)
+            res["n"] += n
+            res["oc"].append("reuse:ok")
+            if kind:
+                res["viol"].append({"kind": "reused-object:" + kind, "canon": repr(payload),
+                                    "msg": f"step {step} ({src[:80]}): {msg} ; simplified: {ast.unparse(refsem_fix(s_))[:200]}"})
+                return res
+        return res
 
     def run_chain_p3(self, src):
         return self.run_chain(src, qspaces.POOL3)
